@@ -149,6 +149,8 @@ namespace enki
         // now read data, ensuring we do so after above reads & CAS
         *pOut = m_Buffer[ actualReadIndex ];
 
+        // the copy has to be complete before the slot is handed back to the writer
+        BASE_MEMORYBARRIER_RELEASE();
         m_Flags[  actualReadIndex ] = FLAG_CAN_WRITE;
 
         return true;
@@ -191,6 +193,8 @@ namespace enki
         // now read data, ensuring we do so after above reads & CAS
         *pOut = m_Buffer[ actualReadIndex ];
 
+        // the copy has to be complete before the slot is handed back to the writer
+        BASE_MEMORYBARRIER_RELEASE();
         m_Flags[  actualReadIndex ] = FLAG_CAN_WRITE;
 
         BASE_MEMORYBARRIER_RELEASE();
@@ -225,6 +229,10 @@ namespace enki
         // as we are the only writer we can update the data without atomics
         //  whilst the write index has not been updated
         m_Buffer[ actualWriteIndex ] = in;
+
+        // readers claim a slot by its flag alone: the item has to be stored completely
+        // before the flag says so (the flag store is volatile, the item store is not)
+        BASE_MEMORYBARRIER_RELEASE();
         m_Flags[  actualWriteIndex ] = FLAG_CAN_READ;
 
         // We need to ensure the above writes occur prior to updating the write index,
